@@ -85,10 +85,10 @@ func init() {
 		hw.Opts{Groups: groups("c17", "c08"), MinSteps: 4, MaxSteps: 50, SmallPrune: true, LargeEvery: 60, ConfigInvalid: true,
 			WMint: 60, WDeliver: 20, WClean: 3, WSave: 2, WReload: 5, WMark: 8, WUnmark: 5})
 
-	hprop("C18", histRule+"every header carries a real merkle root over 1-9 generated txids; at tape-chosen points a standard merkle proof (with header, or block hash only) is built for a transaction of an accepted block on the best chain, a side branch or in pruned history and must verify with the reference height and best-chain flag; one tape-chosen single-element corruption (txid, path element, index, header merkle root, unknown block hash, header not in the tree, truncated/extended path) must fail; non-trivial = every run with at least one proof",
+	hprop("C18", histRule+"headers are also marked invalid and unmarked at tape-chosen points; every header carries a real merkle root over 1-9 generated txids; at tape-chosen points a standard merkle proof (with header, or block hash only) is built for a transaction of an accepted block on the best chain, a side branch or in pruned history and must verify with the reference height and best-chain flag; one tape-chosen single-element corruption (txid, path element, index, header merkle root, unknown block hash, header not in the tree, truncated/extended path) must fail; non-trivial = every run with at least one proof",
 		25, 900, []string{"proof-on-side-branch", "proof-in-pruned-history", "proof-odd-width", "proof-by-block-hash-only", "corruption:txid", "corruption:path-element", "corruption:index", "corruption:header-merkle-root", "corruption:unknown-block-hash", "corruption:header-not-in-tree", "corruption:path-truncated", "corruption:path-extended"}, nil, "exploration",
 		hw.Opts{Groups: groups("c18"), MinSteps: 4, MaxSteps: 50, SmallPrune: true, LargeEvery: 60, Txids: true,
-			WMint: 60, WDeliver: 20, WClean: 5, WSave: 2, WReload: 4, WProof: 25})
+			WMint: 60, WDeliver: 20, WClean: 5, WSave: 2, WReload: 4, WProof: 25, WMark: 3, WUnmark: 1})
 
 	hprop("C19", histRule+"at tape-chosen points GetLocatorHashes(max) for max in {1,2,3,10,50} is checked for membership (best-chain header or first header of a side branch), newest-first order starting at the tip's parent, no duplicates and the maximum; then for every root-to-leaf path of the reference tree (a conformant peer on that chain) the protocol reply to the locator is computed and its first header submitted: it must connect; chain splits are configured at tape-chosen low heights through the verif hook SetSplitsForSimulation (the other chain's first header must be refused), so locators are taken below, between and above configured splits; non-trivial = every run with at least one locator",
 		25, 900, []string{"locator-at-height<=1", "locator-on-pruned-chain", "locator-with>=2-side-branches", "conformant-peer-reply", "peer-on-sibling-of-tip", "split-configured", "locator-contains-split-fork-point"}, nil, "exploration",
